@@ -816,6 +816,26 @@ Proof. vm_compute. auto. Qed.
 Lemma gen_canc_sound c h : (c = KRange \/ c = KSelect \/ begun h = true) -> gen_canc c (begun h) = true.
 Proof. intros [->|[->|H]]; auto. rewrite H. destruct c; auto. Qed.
 
+(** ---------------------------------------------------------------- state generated per statement *)
+
+(** the implementation's design: every execution selects on its own frame's cancellation channel,
+    whatever the statement executed before *)
+Lemma select_state_independent s ds : sel_run false s ds = ds.
+Proof. revert s; induction ds as [|d ds IH]; intros s; simpl; auto. rewrite IH; auto. Qed.
+
+(** the other design: the first execution's channel is kept; if that execution belonged to the
+    evaluation that was cancelled (channel 1, closed), every later execution selects on it *)
+Lemma sel_run_once_some d0 ds : sel_run true (mkSel (Some d0)) ds = map (fun _ => d0) ds.
+Proof. induction ds as [|x ds IH]; simpl; auto. rewrite IH; auto. Qed.
+
+Lemma select_once_keeps_first ds d : sel_run true (mkSel None) (d :: ds) = d :: map (fun _ => d) ds.
+Proof. simpl. rewrite sel_run_once_some. reflexivity. Qed.
+
+Lemma first_executed_when_cancelled :
+  y_hist start10 [HCancel CInDef; HUse KChanFn VEvalCtx; HUse KNamed VEval; HUse KChanFn VEvalCtx; HCancel CBusy; HUse KChanFn VEvalCtx]
+  = [true; true; true; true].
+Proof. vm_compute. reflexivity. Qed.
+
 (** ---------------------------------------------------------------- the slot of a function literal *)
 
 (** regression (finding C09-literal-slot, repaired by abe7a69): the former crash witness starts the
